@@ -320,6 +320,28 @@ func TestVerifIPFIXJobs(t *testing.T) {
 	}
 }
 
+// TestVerifDumpLoop: a collector that is killed while it saves its templates.  A cache of VERIF_NTPL templates is dumped
+// to VERIF_CACHE_FILE over and over until the process is killed from outside (the harness sends SIGKILL at seeded moments).
+func TestVerifDumpLoop(t *testing.T) {
+	file := os.Getenv("VERIF_CACHE_FILE")
+	if file == "" {
+		t.Skip("driver: VERIF_CACHE_FILE not set")
+	}
+	n, _ := strconv.Atoi(os.Getenv("VERIF_NTPL"))
+	cache := GetCache("")
+	for k := 0; k < n; k++ {
+		tr := TemplateRecord{TemplateID: uint16(300 + k%60000), FieldCount: 2,
+			FieldSpecifiers: []TemplateFieldSpecifier{{ElementID: 8, Length: 4}, {ElementID: 12, Length: 4}}}
+		cache.insert(tr.TemplateID, net.IP{10, 77, byte(k >> 8), byte(k)}, tr)
+	}
+	fmt.Println("VERIF-DUMPLOOP-READY")
+	for {
+		if err := cache.Dump(file); err != nil {
+			fmt.Println("VERIF-DUMPLOOP-ERROR", err) // (a failing save is what the next clean cycle would run into)
+		}
+	}
+}
+
 // ---------------------------------------------------------------------------------------
 // Variant jobs (C09): the driver assembles, for one well-formed message given set by set,
 // every insertion of each given undecodable set at every set boundary and every truncation
